@@ -337,6 +337,30 @@ def build_batch_doc(kind: str, n: int, version: str = '1.1') -> dict:
         entries = [{'id': f'big-e{i}', 'meta': None,
                     'lemma': {'writtenForm': f'w{i}', 'partOfSpeech': 'n'},
                     'senses': senses[2 * i:2 * i + 2]} for i in range(2)]
+    elif kind == 'members':
+        # one synset with n members whose declared order is not the document order of the entries
+        # (1.1+; and a small second synset as control)
+        version = '1.1' if version == '1.0' else version
+        entries = [{'id': f'big-e{i}', 'meta': None,
+                    'lemma': {'writtenForm': f'w{i}', 'partOfSpeech': 'n'},
+                    'senses': [{'id': f'big-s{i}', 'synset': 'big-ss0' if i >= 3 else 'big-ss1',
+                                'meta': None}]} for i in range(n + 3)]
+        big = [f'big-s{i}' for i in range(3, n + 3)]
+        order = big[1::2] + big[0::2][::-1]
+        synsets = [{'id': 'big-ss0', 'ili': '', 'partOfSpeech': 'n', 'meta': None,
+                    'members': order},
+                   {'id': 'big-ss1', 'ili': '', 'partOfSpeech': 'n', 'meta': None,
+                    'members': ['big-s2', 'big-s0', 'big-s1']}]
+    elif kind == 'senses':
+        # n senses in entries of three: some entry's senses straddle every multiple of the batch
+        synsets = [{'id': f'big-ss{i}', 'ili': '', 'partOfSpeech': 'n', 'meta': None}
+                   for i in range(3)]
+        entries = []
+        for i in range((n + 2) // 3):
+            entries.append({'id': f'big-e{i}', 'meta': None,
+                            'lemma': {'writtenForm': f'w{i}', 'partOfSpeech': 'n'},
+                            'senses': [{'id': f'big-s{i}.{j}', 'synset': f'big-ss{(i + j) % 3}',
+                                        'meta': None} for j in range(3)]})
     else:
         raise env.HarnessError(kind)
     lex['entries'] = entries
@@ -350,10 +374,12 @@ def batch_oracle(case):
 
 
 def _batch_enum(tier, shard, nshards):
-    combos = [(k, n) for k in KINDS for n in SIZES]
+    combos = [(k, n) for k in KINDS for n in SIZES] + [('senses', n) for n in SIZES] \
+        + [('members', n) for n in (126, 127, 128, 129, 140, 300)]
     if tier == 'quick':
         combos = [('entries', 1001), ('synsets', 1001), ('sense_relations', 1001),
-                  ('entries', 2001)]
+                  ('entries', 2001), ('members', 129), ('members', 300), ('senses', 1001),
+                  ('senses', 2001)]
     for i, (k, n) in enumerate(combos):
         if i % nshards == shard:
             yield {'kind': k, 'n': n, 'version': '1.1' if i % 2 == 0 else '1.0'}
@@ -399,6 +425,7 @@ SUBS = [
         require_tags=('history:failed-add-then-removal',)),
     Sub('batch-boundary', batch_oracle, _batch_classify, enumerate=_batch_enum,
         exhaustive_note='documents with exactly 999..2001 elements of one kind '
-                        '(synsets / entries / sense relations)',
+                        '(synsets / entries / sense relations / senses in entries of three), '
+                        'and one synset with 126..300 members in a declared order',
         purge_every=1),
 ]
